@@ -48,7 +48,6 @@ func (s *Scheduler) Schedule(g *scheduler.ExecutionGraph) error {
 	)
 
 	for !s.isDone(g) {
-		s.verifGate()
 		if atomic.LoadInt32(&s.cancelled) == 1 {
 			break
 		}
@@ -112,6 +111,7 @@ func (s *Scheduler) Schedule(g *scheduler.ExecutionGraph) error {
 		}
 
 		time.Sleep(s.pause)
+		s.verifGate()
 	}
 
 	wg.Wait()
